@@ -69,6 +69,8 @@ def analyse(fn):
     info = dict(heads=loop_headers(fn))
     for l in fn.order:
         for ins in fn.block(l):
+            if ins[0] == "store" and "posvar" not in info and ins[3] == ("i", 255) and ins[4][0] == "r":
+                info["posvar"] = ins[4][1]        # `let mut i: usize = 255;` of the double-base algorithm (found by its initialiser, not by name)
             if ins[0] in ("call", "invoke"):
                 cal = (ins[3][1] if ins[3][0] == "g" else "") + " " + (ins[-1] or "")        # mangled name + rustc's demangled comment
                 if re.search(r"(6double|12_impl_double)17h|::(_impl_)?double$", cal) and "dbl_block" not in info:
@@ -161,20 +163,20 @@ def one_step(mod, kind, nd, backend, p, loop, decisions):
             return
         # main header
         if loop == "scan":
-            st["post"] = ("leave", it_.P(it_.load(env["%i"], 8))); raise Stop()
+            st["post"] = ("leave", it_.P(it_.load(env[info.get("posvar", "%i")], 8))); raise Stop()
         acc = env[info["acc"]]; e0 = it_.regions[acc.r].b.get(acc.o)
         accsize = e0[2] if e0 is not None and isinstance(e0[0], G) else None
         if accsize is None: raise ir.Unsupported("accumulator of the loop does not hold a group element at the header")
         if n == 1:
             st["init_acc"] = it_.get(acc) if _is_g(it_, acc) else None
             it_.put(acc, G.base("R"), accsize)
-            if kind == "db": it_.store(env["%i"], Poly.const(p), 8)
+            if kind == "db": it_.store(env[info.get("posvar", "%i")], Poly.const(p), 8)
             else:
                 itp = env[info["iter"]]
                 st["init_iter"] = (it_.P(it_.load(itp, 8)), it_.P(it_.load(Ptr(itp.r, itp.o + 8), 8)))
                 it_.store(itp, Poly.const(0), 8); it_.store(Ptr(itp.r, itp.o + 8), Poly.const(0 if loop == "exit" else p + 1), 8)
         else:
-            if kind == "db": pos2 = it_.P(it_.load(env["%i"], 8))
+            if kind == "db": pos2 = it_.P(it_.load(env[info.get("posvar", "%i")], 8))
             else:
                 itp = env[info["iter"]]; pos2 = it_.P(it_.load(Ptr(itp.r, itp.o + 8), 8)) - ONE
             st["post"] = ("header", pos2, it_.get(acc)); raise Stop()
